@@ -42,12 +42,31 @@ META = {
         "Pyoda.GenAgree.C19.gen_ZonedClock_getCurrentOffsetDateTime_eq",
         "Pyoda.GenAgree.C19.gen_ZonedClock_getCurrentDate_eq",
         "Pyoda.GenAgree.C19.gen_ZonedClock_getCurrentTimeOfDay_eq",
+        "Pyoda.GenAgree.C19.gen_FakeClock_advance_atomic",
+        "Pyoda.GenAgree.C19.gen_FakeClock_advanceNanoseconds_atomic",
+        "Pyoda.GenAgree.C19.gen_FakeClock_advanceTicks_atomic",
+        "Pyoda.GenAgree.C19.gen_FakeClock_advanceMilliseconds_atomic",
+        "Pyoda.GenAgree.C19.gen_FakeClock_advanceSeconds_atomic",
+        "Pyoda.GenAgree.C19.gen_FakeClock_advanceMinutes_atomic",
+        "Pyoda.GenAgree.C19.gen_FakeClock_advanceHours_atomic",
+        "Pyoda.GenAgree.C19.gen_FakeClock_advanceDays_atomic", "Pyoda.GenAgree.C19.gen_FakeClock_reset_atomic",
+        "Pyoda.GenAgree.C19.gen_FakeClock_getCurrentInstant_atomic",
+        "Pyoda.GenAgree.C19.gen_FakeClock_getAutoAdvance_atomic",
+        "Pyoda.GenAgree.C19.gen_FakeClock_setAutoAdvance_atomic", "Pyoda.GenAgree.C19.gen_ZonedClock_zone_atomic",
+        "Pyoda.GenAgree.C19.gen_ZonedClock_calendar_atomic",
+        "Pyoda.GenAgree.C19.gen_ZonedClock_getCurrentInstant_atomic",
+        "Pyoda.GenAgree.C19.gen_ZonedClock_getCurrentZonedDateTime_atomic",
+        "Pyoda.GenAgree.C19.gen_ZonedClock_getCurrentLocalDateTime_atomic",
+        "Pyoda.GenAgree.C19.gen_ZonedClock_getCurrentOffsetDateTime_atomic",
+        "Pyoda.GenAgree.C19.gen_ZonedClock_getCurrentDate_atomic",
+        "Pyoda.GenAgree.C19.gen_ZonedClock_getCurrentTimeOfDay_atomic",
+        "Pyoda.GenAgree.C19.all_ops_atomic_in_source", "Pyoda.GenAgree.C19.gen_FakeClock_shared",
     ],
     "trusted_base": [
         "CPython executes one lock acquire/release and one attribute read or write of FakeClock as indivisible steps (GIL); "
         "threading.Lock is not re-entrant and `with lock:` releases it on every exit path",
         "Duration/Instant arithmetic as modelled for C03 (PyodaModel.Elapsed)",
-        "translator tie (tools/py2lean.py; GenAgreeC19): every public operation of FakeClock (constructor, advance, the seven advance_<unit>, reset, get_current_instant, the auto_advance getter and setter) and the ZonedClock getters are re-translated from the source on every run as state-passing functions over (now, auto_advance) and proved equal to one `step` / `zonedRead` of the model. `with self.__lock:` is translated as its body (the tie speaks about ONE thread using the clock; the lock discipline and the interleavings are the Sys model); Instant + Duration and Duration.from_<unit> are the model's (tied by GenAgreeC03); ZonedClock is specialised to a wrapped FakeClock, Instant.in_zone and the projections of the ZonedDateTime are abstract functions; FakeClock.from_utc (calendar arithmetic) and the default auto_advance=Duration.zero are outside the tie",
+        "translator tie (tools/py2lean.py; GenAgreeC19): every public operation of FakeClock (constructor, advance, the seven advance_<unit>, reset, get_current_instant, the auto_advance getter and setter) and the ZonedClock getters are re-translated from the source on every run as state-passing functions over (now, auto_advance) and proved equal to one `step` / `zonedRead` of the model. `with self.__lock:` is translated as its body (the equations speak about ONE thread using the clock; the interleavings are the Sys model), and the Sys model's assumption that every operation is ONE critical section is tied too: the translator emits the lock discipline of each method as data (`<op>.lockInfo`: attributes read/written, every access to mutable state inside `with self.__lock:`, number of critical sections, same-class calls while holding the lock, steps outside it) and `gen_<op>_atomic` / `all_ops_atomic_in_source` check `LockInfo.Atomic` on it on every run (trusted: the syntactic classification of reads, writes and in-place mutators in tools/py2lean.py `lock_discipline`, exercised by the translator self-test); Instant + Duration and Duration.from_<unit> are the model's (tied by GenAgreeC03); ZonedClock is specialised to a wrapped FakeClock, Instant.in_zone and the projections of the ZonedDateTime are abstract functions; FakeClock.from_utc (calendar arithmetic) and the default auto_advance=Duration.zero are outside the tie",
     ],
     "partial": [
         "SystemClock (operating-system time) and real pre-emption are runtime behaviours: sanity-checked by the harness only "
